@@ -24,7 +24,7 @@ import (
 
 	"github.com/dolthub/go-mysql-server/sql"
 
-	"verif/harness/core"
+	"verif/harness/g3lib"
 )
 
 type tnode struct {
@@ -234,7 +234,7 @@ func (t *ttree) shape() string {
 // treeHistory runs one history. disjointOnly: the stored ranges are kept pairwise disjoint (the way
 // RemoveOverlappingRanges uses the tree) and every check is a verdict; otherwise arbitrary ranges are
 // stored and only measurements are taken.
-func treeHistory(r *core.Run, ctx context.Context, rnd *rand.Rand, ncols, nops int, disjointOnly bool) {
+func treeHistory(r *g3lib.Rec, ctx context.Context, rnd *rand.Rand, ncols, nops int, disjointOnly bool) {
 	var doms []*dom
 	for c := 0; c < ncols; c++ {
 		if rnd.Intn(3) == 0 {
